@@ -72,12 +72,21 @@ WireDrift(o) ==
        ELSE IF W.mode = "direct" /\ q.hosts # <<W.hosthdr>> THEN "model:hosthdr"
        ELSE "-"
 
+\* kind = "hist" (C15): consecutive requests through one manager - [steps |-> wire observations, hdr0, hdr1 |->
+\* the manager's default headers before / after]; judged by Url!HistClauses
+HistFacts(h) == [history |-> TRUE, nsteps |-> Len(h.steps), mgrhdr |-> h.hdr0 # <<>>,
+                 modes |-> [i \in 1..Len(h.steps) |-> WireFacts(Ref(h.steps[i].s), PxMode(h.steps[i])).mode],
+                 faults |-> [i \in 1..Len(h.steps) |-> h.steps[i].fault],
+                 failing |-> {i \in 1..Len(h.steps) : WireClauses(h.steps[i]) \ {"-"} # {}}]
+
 TInit == s = <<>> /\ tid = 1
 TNext == /\ tid <= Len(Traces)
          /\ LET e == Traces[tid] IN
             IF e.kind = "parse"
             THEN PrintT(<<"VERDICT", tid, 1, IF EchoOK(e) THEN Verdict(e) ELSE "Machinery:EchoMismatch", Drift(e),
                           ToJson(ParseFacts(e))>>)
+            ELSE IF e.kind = "hist"
+            THEN PrintT(<<"VERDICT", tid, 1, ToJson(HistClauses(e)), "-", ToJson(HistFacts(e))>>)
             ELSE PrintT(<<"VERDICT", tid, 1, ToJson(IF WireEchoOK(e) THEN WireClauses(e) ELSE {"Machinery:EchoMismatch"}), WireDrift(e),
                           ToJson(WireFacts(Ref(e.s), PxMode(e)))>>)
          /\ tid' = tid + 1 /\ UNCHANGED s
